@@ -111,18 +111,18 @@ CHECKS = {
 # additions of later rounds, appended to the level text of the check
 EXTRA = {
  "C01": " T9: a signed field made unacceptable with the acceptable value offered as an unsigned tag of the same name at the top level or in the CERT container. Also through a recording proxy in front of a real roughenough-server of the current tree: the genuine response of one run replayed to a later run, and with -n 2 (thorough 3) every assignment of the run's genuine responses to its requests. T10: a delegated PUBK that is not a curve point with degenerate SREP signatures, and runs whose pinned key is not a curve point (attacker-signed chain under the degenerate signature R = neutral element, s = 0). Properly signed replies whose ROOT is the all-zero node with a PATH that is not a whole number of nodes (4 bytes, half a node, a node plus one byte) or absent.",
- "C03": " The client is also run under six local time zones (POSIX strings and tz-database names) with and without -z at instants around DST changes: %s equals the midpoint and the calendar fields equal midpoint + zone offset. -n k with a pinned key also against a real server with 4 workers. Through a forwarding proxy the client's -n k requests are queued on a stopped (SIGSTOP/SIGCONT) one-worker real server together with a request of the other protocol and/or a junk datagram in front of, between or behind them (one shared batch): every reply accepted. Classic replies also in the original layout without the NONC echo.",
+ "C03": " The client is also run under six local time zones (POSIX strings and tz-database names) with and without -z at instants around DST changes: %s equals the midpoint and the calendar fields equal midpoint + zone offset. -n k with a pinned key also against a real server with 4 workers. Through a forwarding proxy the client's -n k requests are queued on a stopped (SIGSTOP/SIGCONT) one-worker real server together with a request of the other protocol and/or a junk datagram in front of, between or behind them (one shared batch): every reply accepted. Classic replies also in the original layout without the NONC echo. -n k against the reference responder with the replies sent in request order and in reverse order.",
  "C05": " Every family runs with the capturing logger at Trace and with logging off; offset-grid family: every offset word over every value (aligned or not) up to past the message length, offset pairs over a grid incl. misaligned values; count words far beyond the number of known tags; a refused add_field leaves the message unchanged.",
  "C06": " Every family runs with the capturing logger at Trace and with logging off; offset-grid family: every offset word over every value (aligned or not) up to past the message length, offset pairs over a grid incl. misaligned values.",
  "C07": " Plus all permutations of the tag sequence of 11 request shapes (only the ascending order is well-formed) and header-word sweeps of valid requests. Every non-empty subset of the offset words of a request shifted by 1..3 bytes up or down (some offsets misaligned, others not). Long runs of valid requests on one server with fault_percentage 50 / 25 (singly, batches of 3, full batches of 64): no reply longer than its request.",
- "C08": " Plus ~4.3k near-valid single datagrams (every header word of a valid classic / IETF / IETF+SRV request swept over its range, incl. requests carrying both padding tags) at every log level, and bursts of k valid requests of one protocol (k up to 129, every Merkle depth; with batch_size 1 and 2 the burst hits the per-call batch cap and the worker must keep serving). The valid requests of a sequence itself must have been answered by the time the server is quiescent, whatever was queued in front of them.",
+ "C08": " Plus ~4.3k near-valid single datagrams (every header word of a valid classic / IETF / IETF+SRV request swept over its range, incl. requests carrying both padding tags) at every log level, and bursts of k valid requests of one protocol (k up to 129, every Merkle depth; with batch_size 1 and 2 the burst hits the per-call batch cap and the worker must keep serving). The valid requests of a sequence itself must have been answered by the time the server is quiescent, whatever was queued in front of them. Datagram classes include valid requests of 1028 and 1500 bytes.",
  "C02": " The determinism self-test's two runs (same burst on two fresh Server objects of one process) are judged like any other execution. Identical datagrams in one batch (retransmissions) are requests of their own; framed requests offering draft-13 together with other version numbers are answered as draft-13; the fault-injection clause also on the real binary configured from file and environment. Fault injection: besides the share of failing replies, their independence within a signed batch (almost-uniform batches bounded by C(N,K) q^K).",
  "C11": " Plus histories ending with a request that arrives inside a wake-up (at the polled/collected/sent hook point): its midpoint is not earlier than its send time. The real server binary under six local time zones: same bracket. The grid also varies the width of the root handed to make_srep (32 / 64 bytes for both versions).",
  "C18": " Plus, with per-client statistics, W in-process Servers sharing one statistics queue of capacity 2W: every assignment of R hand-off rounds to the workers x every position of the single reporter pass. Controlled scenarios in which requests arrive early (every socket bound, a worker's Server not built yet). Requests of the multi-worker exploration rotate through datagram sizes 1024/1500/1200/1496. Controlled schedules also with the health-check port and per-client statistics on (every worker binds the health port).",
  "C19": " A second signal during the shutdown is an environment action too (controlled scenarios and sampled wall-clock runs): still exit 0; so is a health-check connection left silent and open at the signal; a server launched with SIGHUP or SIGINT inherited as ignored; the signal delivered to a worker thread or while the process is stopped; per-client statistics with status_interval 0 and 1. Bursts of 16 x batch_size (-1, +1) requests taken in one call of process_events, then silence (environment waits until the worker is idle), then the signal.",
  "C09": " IETF pool requests also name [0, draft-13] in VER; a framed request naming only version 0 is among the rejected kinds. Rejected kinds also include framed requests whose length field disagrees with the bytes that follow (trailing bytes, length lowered by 4).",
  "C10": " Certificate sequences also certify the same online key again for the same and the other protocol; the real server started from file and ENV with seeds whose hex spelling invites another reading (all digits, exponent form, upper case) announces and certifies with the written seed's key; half of the live restarts run with fault_percentage 50 (deliberately invalid replies parsed leniently: their CERT is a certificate too). For seeds whose SRV value has a 00 / ff / white-space byte at an end (found by search): a request addressed to SHA-512(0xff||pk)[..32] is answered, one addressed to another value is not. The server built with the Cargo feature `fuzzing` runs in two modes.",
- "C12": " The table runs in five server states (batch sizes 1/2/4 with groups filling the batch exactly; after a full batch of 64); lists of length <= 2 again with extra tags that move VER/SRV/NONC to other field positions. Three more server states: a valid classic request of another client shares the batch (queued first / last; batch_size 64 and 2).",
+ "C12": " The table runs in five server states (batch sizes 1/2/4 with groups filling the batch exactly; after a full batch of 64); lists of length <= 2 again with extra tags that move VER/SRV/NONC to other field positions. Three more server states: a valid classic request of another client shares the batch (queued first / last; batch_size 64 and 2). Lists with unknown numbers that differ from draft-13 in a few bits, in one half, or in byte order.",
  "C13": " Verifier also over every message length 0..=4096 in 5-7 chunkings with bit flips, prefix signatures and extended messages; every sequence (depth 4, thorough 5) of update/verify operations on ONE verifier object against direct verification; every interleaving (depth 5, thorough 6) of update/sign on TWO signer objects on one thread. One message in 255..65537 update() calls (byte by byte, runs of empty chunks in front of and inside it), signer and verifier. Seed alphabet includes seeds with white-space / NUL / quote bytes at either end.",
  "C16": " Integer settings written as YAML reals with a fractional part are refused; an unknown key is refused whatever its value; keys late in long (commented) files are effective / refused like early ones. Observed behaviour: worker threads of the real server for written num_workers up to 2*CPUs+1, both sources; share of deliberately invalid replies for written fault_percentage 0/10/25/49/50.",
  "C04": " A fifth leaf family: request-sized leaves sharing a 640-byte prefix. Issued proofs: the real Responder driven with every sequence of batch sizes (length <= 3 over 1..5, pairs over {1,2,33,64}), every reply authentic for its own request; and bursts of every aligned request size through an in-process Server. Through a long-running in-process Server: bursts larger than the batch size (batch_size 1/2/4/64, up to three trees per wake-up, protocol mixes). The real client binary against the reference responder with PATH / INDX / ROOT changed (elements dropped, appended, swapped, zeroed; other index; root of another batch / a leaf / not a node; replies of other requests): never accepted.",
